@@ -1,5 +1,6 @@
 (* Byte strings in generated case files are written as [hex "0aff"] : list N. *)
-From Coq Require Import List Bool NArith String Ascii.
+From Coq Require Import List Bool NArith Ascii.
+From Coq Require Export String.
 Import ListNotations.
 Open Scope bool_scope.
 Open Scope N_scope.
